@@ -504,6 +504,21 @@ func main() {
 					}
 				}
 			}
+			// well-formed frames of the largest acceptable size (16 MiB and one byte less): an add-identity request
+			// with a long comment and a relayed request; each must be answered like any other
+			{
+				k := gen.Pool()[0]
+				base := frames.Captured(func(a agent.ExtendedAgent) { a.Add(agent.AddedKey{PrivateKey: k.Priv}) })[0]
+				for _, size := range []int{maxFrame - 1, maxFrame} {
+					comment := string(bytes.Repeat([]byte{'c'}, size-len(base)))
+					big := frames.Captured(func(a agent.ExtendedAgent) { a.Add(agent.AddedKey{PrivateKey: k.Priv, Comment: comment}) })
+					if len(big) == 1 && len(big[0]) == size {
+						submit("table", []piece{wf(frames.Frame{Body: big[0], Kind: frames.KSimple, Name: fmt.Sprintf("add-of-%d-bytes", size)}), wf(frames.Frame{Body: []byte{11}, Kind: frames.KList, Name: "list"})}, false)
+					}
+					rel := append([]byte{200}, bytes.Repeat([]byte{7}, size-1)...)
+					submit("table", []piece{wf(frames.Frame{Body: rel, Kind: frames.KRelayed, Name: fmt.Sprintf("relayed-of-%d-bytes", size)}), wf(frames.Frame{Body: []byte{11}, Kind: frames.KList, Name: "list"})}, false)
+				}
+			}
 			r.Extra("table_streams", idx)
 		}
 		// ---- seeded streams
